@@ -139,6 +139,7 @@ class Fsx:
         self.open_files = {}
         self.torn_files = set()
         self._saved = None
+        self.mkdir_race = None  # predicate(relpath): this mkdir loses a race against another process
         self.actor = None  # who performs the effects (set by the harness, e.g. the writer index)
         self.reads = []  # (actor, relative path) of files opened for reading inside the root
         self.writes = []  # (actor, kind, relative path)
@@ -203,7 +204,11 @@ class Fsx:
             return self._saved["os.mkdir"](path, *a, **k)  # raises FileExistsError, not an effect
         if self.effect("mkdir", path):
             self.die()
-        return self._saved["os.mkdir"](path, *a, **k)
+        r = self._saved["os.mkdir"](path, *a, **k)
+        if self.mkdir_race is not None and self.mkdir_race(os.path.relpath(os.fspath(path), self.root)):
+            # as if another process had created the same directory an instant earlier
+            raise FileExistsError(17, "File exists (lost the race with another writer)", os.fspath(path))
+        return r
 
     def __enter__(self):
         self._saved = {"builtins.open": builtins.open, "io.open": io.open, "os.replace": os.replace, "os.rename": os.rename,
